@@ -663,7 +663,8 @@ func (encryptor *QueryDataEncryptor) updatePlaceholderMap(valuesCount int, place
 		}
 		// Placeholders use 1-based indexing and "values" (Go slice) are 0-based.
 		index--
-		if index >= valuesCount {
+		// ":v0" / "$0" would index the bound values with -1 (panic)
+		if index < 0 || index >= valuesCount {
 			logrus.WithFields(logrus.Fields{"placeholder": text, "index": index, "values": valuesCount}).
 				Warning("Invalid placeholder index")
 			return base.ErrInvalidPlaceholder
